@@ -21,15 +21,18 @@ inline void vf_emit(const std::string &line) {
 }
 inline int &vf_counter() { static int c = 0; return c; }
 inline int &vf_live() { static int c = 0; return c; }
+inline int &vf_uid() { static int c = 0; return c; }
 
+// tag: logical identity (a copy carries the tag of its source); uid: one per C++ object
 struct VfLife {
   int tag;
-  VfLife() : tag(++vf_counter()) { ++vf_live(); vf_emit("BIRTH " + std::to_string(tag)); }
-  VfLife(const VfLife &o) : tag(++vf_counter()) { ++vf_live(); vf_emit("COPY " + std::to_string(tag) + " from " + std::to_string(o.tag)); }
+  int uid;
+  VfLife() : tag(++vf_counter()), uid(++vf_uid()) { ++vf_live(); vf_emit("BIRTH " + std::to_string(tag) + " u" + std::to_string(uid)); }
+  VfLife(const VfLife &o) : tag(o.tag), uid(++vf_uid()) { ++vf_live(); vf_emit("COPY " + std::to_string(tag) + " u" + std::to_string(uid) + " from u" + std::to_string(o.uid)); }
   VfLife &operator=(const VfLife &) { return *this; }
   ~VfLife() {
-    if (tag <= 0) { vf_emit("DOUBLE-DEATH " + std::to_string(tag)); return; }
-    --vf_live(); vf_emit("DEATH " + std::to_string(tag)); tag = -tag;
+    if (uid <= 0) { vf_emit("DOUBLE-DEATH " + std::to_string(tag) + " u" + std::to_string(-uid)); return; }
+    --vf_live(); vf_emit("DEATH " + std::to_string(tag) + " u" + std::to_string(uid)); uid = -uid;
   }
 };
 
@@ -59,7 +62,7 @@ inline std::string vf_v(const std::string &s) { return "s:" + vf_hex(s.data(), s
 template<class E> inline std::string vf_e(E v) { return "e:" + std::to_string((long long)v); }
 template<class K> inline std::string vf_o(const K *p) {
   if (p == nullptr) return "nil";
-  return "o:" + std::to_string(p->vf_life.tag) + (p->vf_life.tag <= 0 ? "!POISON" : "");
+  return "o:" + std::to_string(p->vf_life.tag) + (p->vf_life.uid <= 0 ? "!DEAD" : "");
 }
 inline long long vf_num(bool v) { return v; }
 inline long long vf_num(float v) { return (long long)(v * 4); }
